@@ -73,6 +73,8 @@ def mutex_prop(pid, pbit, fair_only=False):
           bounds="E-HIST: K=3, N=7 operations of which the first 3 are fixed to 'poll lock future #k' (partition)"),
         H(MUTEX, "hist_%s_l_p3_n7" % tag, "hold", replay=("mutex_hist_noop", cfg | (3 << 2) | (1 << 4)), mask=P(pbit), est_s=100,
           bounds="E-HIST: K=3, N=7 operations: try_lock, then the 3 lock futures are polled (all queue up behind the guard), then 3 arbitrary operations"),
+        H(MUTEX, "hist_%s_l_p2_n7" % tag, "hold", replay=("mutex_hist_noop", cfg | (2 << 2) | (1 << 4)), mask=P(pbit), est_s=150,
+          bounds="E-HIST: K=3, N=7 operations: try_lock, futures #0 and #1 polled (queued behind the guard), then 4 arbitrary operations"),
         H(MUTEX, "witness_hist_n5", "witness", replay=("mutex_hist_noop", 2), mask=PALL, witness_bit=1, est_s=100,
           bounds="witness twin: N=5, must reach 'two pending, unlock wakes one'"),
     ]
@@ -240,6 +242,10 @@ def c19_prop():
         quick += [H(RING, "%s_hist_c0" % kind, "hold", replay=("ring_hist_%s" % kind, 0), est_s=10, bounds="%sHeapBuf capacity 0, 2 operations" % kind),
                   H(RING, "%s_hist_c1" % kind, "hold", replay=("ring_hist_%s" % kind, 1), est_s=10, bounds="%sHeapBuf capacity 1, 4 operations" % kind),
                   H(RING, "%s_hist_c2_n3" % kind, "hold", replay=("ring_hist_%s" % kind, 2), est_s=15, bounds="%sHeapBuf capacity 2, 3 operations" % kind)]
+    quick += [H(RING, "zst_fixed_c0", "hold", replay=("ring_zst_fixed", 0), est_s=10, bounds="FixedHeapBuf of ZERO-SIZED drop-counting elements, capacity 0, 2 operations"),
+              H(RING, "zst_fixed_c2", "hold", replay=("ring_zst_fixed", 2), est_s=20, bounds="FixedHeapBuf of zero-sized elements, capacity 2, 4 operations"),
+              H(RING, "zst_growing_c2", "hold", replay=("ring_zst_growing", 2), est_s=20, bounds="GrowingHeapBuf of zero-sized elements, capacity 2, 4 operations"),
+              H(RING, "zst_array_c2", "hold", replay=("ring_zst_array", 2), est_s=20, bounds="ArrayBuf of zero-sized elements, capacity 2, 4 operations")]
     quick.append(H(RING, "array_witness_c2", "witness", replay=("ring_hist_array", 2), witness_bit=5, est_s=20,
                    bounds="witness twin: index wrap-around and drop of a non-empty buffer"))
     thorough = quick + [
@@ -355,6 +361,7 @@ def c11_prop():
     quick.append(mpmc_hist("c11", 11, 1, "cl", 3, 5))
     quick.append(mpmc_hist("c11", 11, 0, "cl", 3, 5))
     quick.append(mpmc_hist("c11", 11, 2, "cl", 0, 4))
+    quick.append(mpmc_hist("c11", 11, 1, "cl", 4, 5))
     quick.append(H(LIFE, "life_mpmc_discard", "hold", replay=("life_mpmc_discard", 0), mask=P(11), est_s=40,
                    bounds="shared mpmc (public API, no futures): capacity 2, 0-2 buffered values, optional receiver clone, optional explicit close from "
                           "either side, receiver handles dropped in a symbolic order: the LAST receiver discards the buffer immediately and closes"))
@@ -427,7 +434,7 @@ MPMC_FUNCS = ["mpmc::ChannelState::{try_send,send_or_register,try_receive,receiv
 MPMC_OPS = {"sr": 1 | 2 | 4 | 8, "cl": 1 | 2 | 128 | 8, "tr": 1 | 2 | 32 | 64, "ca": 1 | 2 | 16 | 64, "all": 255}
 ALPHA_TXT = {"sr": "poll send/recv (A|B) + drop send/recv", "cl": "poll send/recv + close + drop recv",
              "tr": "poll send/recv + try_send + try_receive", "ca": "poll send/recv + cancel + try_receive", "all": "all 17 operations",
-             "st": "poll send + poll STREAM + close + try_send + drop stream"}
+             "st": "poll send + poll STREAM + close + try_send + drop stream", "ss": "poll send + poll receive/STREAM + close"}
 
 
 def mpmc_cfg(cap, alpha, pre, stream=0):
@@ -436,6 +443,8 @@ def mpmc_cfg(cap, alpha, pre, stream=0):
         ops = 1 | 2 | 64 | 4
     if alpha == "st":
         ops = 1 | 2 | 128 | 32 | 8
+    if alpha == "ss":
+        ops = 1 | 2 | 128
     return cap | (pre << 4) | (stream << 8) | (ops << 12)
 
 
@@ -550,8 +559,10 @@ def c01_prop():
 def c17_prop():
     quick = []
     for (mod, what) in ((MUTEX, "mutex"), (SEM, "semaphore"), (EVENT, "event"), (ONESHOT, "oneshot"), (ONESHOT_BC, "oneshot-broadcast"),
-                        (STATE, "state-broadcast"), (TIMER, "timer")):
+                        (STATE, "state-broadcast")):
         quick.append(H(mod, "step_c17", "step", est_s=60, est_gb=2, bounds="E-STEP %s: is_terminated() == 'completed' after any operation from any state" % what))
+    quick.append(H(TIMER, "step_c17_poll", "step", est_s=100, est_gb=2, bounds="E-STEP timer K=4: is_terminated() after poll from any state"))
+    quick.append(H(TIMER, "step_c17_drop", "step", est_s=200, est_gb=3, timeout=900, bounds="E-STEP timer K=3: is_terminated() of the others after a drop"))
     quick += [H(m, n, "panic", profile="full", est_s=15, bounds="poll after completion must panic (sentinel after the second poll unreachable)")
               for (m, n) in ((MUTEX, "repoll_panics"), (SEM, "repoll_panics"), (EVENT, "repoll_panics"), (ONESHOT, "repoll_panics"),
                              (ONESHOT_BC, "repoll_panics"), (STATE, "repoll_panics"), (TIMER, "repoll_panics"), (TIMER, "repoll_panics_send_facade"),
@@ -567,9 +578,10 @@ def c17_prop():
         H(ONESHOT, "hist_c17_n5", "hold", replay=("oneshot_hist_noop", 0), mask=P(17), est_s=80, bounds="E-HIST oneshot N=5"),
         H(STATE, "hist_c17_n5", "hold", replay=("state_hist_noop", 0), mask=P(17), est_s=150, bounds="E-HIST state-broadcast N=5"),
         H(TIMER, "hist_c17_k3_drop_a4", "hold", replay=("timer_hist_noop", 4 | (1 << 11)), mask=P(17), est_s=250, est_gb=3, timeout=900, bounds="E-HIST timer 4 operations {poll, drop, advance}"),
-        H(MPMC, "hist_c17_c1_st_p1_n5", "hold", replay=("mpmc_hist_noop", mpmc_cfg(1, "st", 1, 1)), mask=P(17), est_s=300, est_gb=4,
-          bounds="E-HIST mpmc capacity 1 with a ChannelStream: items = what successive receives return, None once closed and drained, terminated from then on"),
-        H(MPMC, "hist_c17_c0_st_p0_n4", "hold", replay=("mpmc_hist_noop", mpmc_cfg(0, "st", 0, 1)), mask=P(17), est_s=300, est_gb=4,
+        H(MPMC, "hist_c17_c1_ss_p1_n4", "hold", replay=("mpmc_hist_noop", mpmc_cfg(1, "ss", 1, 1)), mask=P(17), est_s=400, est_gb=5, timeout=900,
+          bounds="E-HIST mpmc capacity 1 with a ChannelStream (alphabet: poll send, poll receive/stream, close): items = what successive receives return, "
+                 "None once closed and drained, terminated from then on; N=4 (first operation fixed)"),
+        H(MPMC, "hist_c17_c0_ss_p0_n4", "hold", replay=("mpmc_hist_noop", mpmc_cfg(0, "ss", 0, 1)), mask=P(17), est_s=400, est_gb=5, timeout=900,
           bounds="E-HIST mpmc capacity 0 with a ChannelStream, N=4"),
         mpmc_hist("c17", 17, 0, "ca", 5, 5),
         mpmc_hist("c17", 17, 1, "ca", 3, 5),
@@ -582,7 +594,8 @@ def c17_prop():
         H(EVENT, "hist_c17_n7", "hold", replay=("event_hist_noop", 2), mask=P(17), est_s=900, timeout=3000, bounds="E-HIST event N=7"),
         H(ONESHOT_BC, "hist_c17_n7", "hold", replay=("oneshot_bc_hist_noop", 0), mask=P(17), est_s=900, timeout=3000, bounds="E-HIST oneshot-broadcast N=7"),
         H(STATE, "hist_c17_n7", "hold", replay=("state_hist_noop", 0), mask=P(17), est_s=900, timeout=3000, bounds="E-HIST state-broadcast N=7"),
-        H(MPMC, "hist_c17_c1_st_p3_n5", "hold", replay=("mpmc_hist_noop", mpmc_cfg(1, "st", 3, 1)), mask=P(17), est_s=600, est_gb=4, timeout=3000, bounds="E-HIST mpmc stream, prefix 3"),
+        H(MPMC, "hist_c17_c1_ss_p1_n5", "hold", replay=("mpmc_hist_noop", mpmc_cfg(1, "ss", 1, 1)), mask=P(17), est_s=1500, est_gb=6, timeout=3300, bounds="E-HIST mpmc stream N=5"),
+        H(MPMC, "hist_c17_c1_st_p1_n5", "hold", replay=("mpmc_hist_noop", mpmc_cfg(1, "st", 1, 1)), mask=P(17), est_s=3000, est_gb=8, timeout=3400, bonus=True, bounds="E-HIST mpmc stream with try_send/drop (bonus)"),
         H(SEMSH, "hist_c17_n4", "hold", replay=("semsh_hist_noop", 2), mask=P(17), est_s=400, est_gb=5, timeout=3000,
           bounds="shared semaphore acquire future: is_terminated() after every operation, N=4 (Option<Arc> restored after a Pending poll)"),
         H(LIFE, "life_c17_mpmc_n4", "hold", replay=("life_mpmc", 0), mask=P(17), est_s=1500, est_gb=16, timeout=3000, bonus=True, bounds="shared mpmc receive future over handle histories (bonus: memory-hungry)"),
@@ -748,7 +761,7 @@ def decode_raw(cfg, script):
     return ["cfg=%d" % cfg, "script bytes (stop flag / op / operands interleaved, see harness/inc): %s" % list(script)]
 
 
-DECODERS = {"heap_wide": decode_raw, "ring_hist_array": decode_ring, "ring_hist_fixed": decode_ring, "ring_hist_growing": decode_ring,
+DECODERS = {"ring_zst_fixed": decode_ring, "ring_zst_growing": decode_ring, "ring_zst_array": decode_ring, "heap_wide": decode_raw, "ring_hist_array": decode_ring, "ring_hist_fixed": decode_ring, "ring_hist_growing": decode_ring,
             "list_hist": decode_raw, "list_buildstep": decode_raw, "heap_hist": decode_raw}
 DECODERS_OLD = {"mutex_hist_noop": decode_mutex, "mutex_hist_check": decode_mutex,
             "sem_hist_noop": decode_sem, "sem_hist_check": decode_sem}
